@@ -266,6 +266,10 @@ func c15(ctx *core.Ctx) {
 		for i := 0; i < r.Intn(6); i++ {
 			s.Writes = append(s.Writes, []int{0, 1, 10, 300}[r.Intn(4)])
 		}
+		if r.Chance(1, 12) {
+			// one large Write call among them (sizes around the buffer sizes code likes to use)
+			s.Writes = append(s.Writes, []int{512, 4096, 32768, 65536}[r.Intn(4)]+r.Intn(3)-1)
+		}
 		if !s.UseResp {
 			restful.PrettyPrintResponses = s.Pretty
 		}
@@ -277,7 +281,27 @@ func c15(ctx *core.Ctx) {
 		judgeC15(ctx, si, s, base, -1, "none")
 		// fault positions: every byte position of the fault-free output
 		var ks []int
-		if total <= 700 || !ctx.Quick() {
+		if total > 5000 {
+			// large outputs: call boundaries, the positions around powers of two, and a sparse grid
+			pos := map[int]bool{0: true, total: true}
+			acc := 0
+			for ci := 0; ci < len(base.errs); ci++ {
+				acc += base.fw.perCall[ci]
+				for _, d := range []int{-1, 0, 1} {
+					pos[acc+d] = true
+				}
+			}
+			for p2 := 256; p2 <= total; p2 *= 2 {
+				for _, d := range []int{-1, 0, 1} {
+					pos[p2+d] = true
+				}
+			}
+			for k := 0; k <= total; k++ {
+				if (pos[k] || k%1499 == 0) && k >= 0 {
+					ks = append(ks, k)
+				}
+			}
+		} else if total <= 700 || !ctx.Quick() {
 			for k := 0; k <= total; k++ {
 				ks = append(ks, k)
 			}
